@@ -51,6 +51,7 @@ EXPLANATION = (
     "(W8) The request-line parsers raise only ValueError: constant subscripts are dominated by an existence test (or the protocol catches everything around the parser). "
     "(W9) = C15.X5: the transport facade's close() reaches the TCP close on every normal path."
     " (W11) = C15.X6: the package's own log processors cannot raise, so a log call before the write cannot lose the response."
+    ' (W12) every method the protocol calls on self.transport exists on TLSTransportWrapper (the transport it is given on the PyOpenSSL backend).'
 )
 
 HEADER_RE = re.compile(r"^[1-6][0-9] [^\r\n]*\r\n$")
@@ -808,6 +809,9 @@ def run(chk: Check) -> None:
     from .common import reuse as _reuse11
 
     _reuse11(chk, rule_x6, "W11", "log calls sit before the response is written (sink, timeout reply): the package's own structlog processors are total (= C15.X6), so logging cannot turn a request into a connection without response", ("X6",))
+    from .common import facade_complete
+
+    facade_complete(chk, "W12")
     chk.trusted = [
         "CPython ast parser",
         "engine CFG / inliner / BoolFacts path pruning / abstract string domain",
